@@ -224,4 +224,34 @@ PROPS["C16"] = dict(
     technique="contract-based deductive verification (Verus on mechanically extracted real bodies) + syntactic frame scan",
 )
 
+TY_TRUSTED = [
+    "verus prelude optypes.rs: kinds as sets of members; contracts of the one-line TypeDef/Kind methods used by the typing rules (is_*, union, fallible_unless, with_kind, or_null, ...) are assumed (the scalar Kind algebra underneath is decided by the C19 units)",
+    "op_table: the kind-level behaviour of try_add/try_sub/try_mul/try_lt.. (which result variant, or a type error, for each pair of operand variants) is checked on the real helpers by the Kani units k_optable_* for the heap-free variants (thorough tier) and by the C10/C11 units for numbers; for byte strings, timestamps and collections it is read from the code (rule 1b)",
+    "child contracts: an operand's type/state/constant are uninterpreted functions of the incoming state (structural induction, DESIGN section 2)",
+]
+TY_NOT_COVERED = [
+    "this is a PARTIAL check of the property: it decides the typing rules of binary operators, if/else and `!` only",
+    "not covered: stdlib function type definitions (C03), collection kinds and type-level path insert/remove (beyond C19's scalar fragment), Query/Variable/Assignment typing over TypeState, Block scoping, closures, progressive type checking and pending-fallibility bookkeeping in compiler.rs, Program::final_type_info",
+]
+PROPS["C01"] = dict(
+    level="proof",
+    level_text="PARTIAL: proof (Verus on the extracted real bodies) that the typing rules of binary operators, if/else and `!` are sound w.r.t. the runtime helpers' kind table: every value the runtime can produce for operands of the operand kinds belongs to the reported kind. Does not decide type soundness of whole programs.",
+    text="type soundness, operator/control-flow core: Op::type_info, IfStatement::type_info, Not::type_info against the kind table of the runtime helpers",
+    verus=["v_op_types", "v_control_types"],
+    kani=["k_optable_add", "k_optable_sub", "k_optable_mul", "k_optable_lt"],
+    kani_quick=[],
+    trusted=TY_TRUSTED, not_covered=TY_NOT_COVERED,
+    technique="contract-based deductive verification (Verus on mechanically extracted real bodies; Kani for the helpers' kind table)",
+)
+PROPS["C02"] = dict(
+    level="proof",
+    level_text="PARTIAL: proof (Verus on the extracted real bodies) that binary operators, if/else and `!` are typed infallible only when the runtime helper cannot fail on any operands of the operand kinds (the documented NaN case excepted; `/` only with a constant non-zero integer or normal float divisor). Does not decide infallibility of whole programs.",
+    text="infallible-never-fails, operator/control-flow core: fallibility component of Op::type_info, IfStatement::type_info, Not::type_info",
+    verus=["v_op_types", "v_control_types"],
+    kani=["k_optable_add", "k_optable_sub", "k_optable_mul", "k_optable_lt"],
+    kani_quick=[],
+    trusted=TY_TRUSTED, not_covered=TY_NOT_COVERED + ["the runtime half (errors only arise where a node is typed fallible, abort/return routing) is C06-C09/C17"],
+    technique="contract-based deductive verification (Verus on mechanically extracted real bodies; Kani for the helpers' kind table)",
+)
+
 HOOK_COMMITS = ["8978857", "33091a8"]
